@@ -623,7 +623,8 @@ func TestC15(t *testing.T) {
 				t.Fatalf("trace: %v", err)
 			}
 			for _, rec := range tr.Ops {
-				if rec.ResultFile == nil {
+				approval := strings.Contains(rec.Type, "sig_proposal_await")
+				if rec.ResultFile == nil && !approval {
 					continue
 				}
 				job++
@@ -644,8 +645,14 @@ func TestC15(t *testing.T) {
 					nd.View.SetWatermark(1 << 30)
 					boardLen := func() int { msgs, _ := nd.View.GetMessages(0); return len(msgs) }
 					before := kvSnapshot(nd)
+					submit := func() error {
+						if approval { // the operator's approval of an invitation: the node builds, signs and posts the confirmation itself
+							return nd.Approve(rec.OpID)
+						}
+						return nd.SubmitResult(rec.ResultFile)
+					}
 					nd.View.FailSends = 1
-					err1 := nd.SubmitResult(rec.ResultFile)
+					err1 := submit()
 					desc := fmt.Sprintf("%s n=%d t=%d, operation %s", c[0], c[1], c[2], rec.Type)
 					if err1 == nil {
 						v = violf("send-failure-swallowed", "%s: the board refused the post, yet the submission was reported as successful", desc)
@@ -655,13 +662,31 @@ func TestC15(t *testing.T) {
 						v = violf("failed-submission-changed-state", "%s: the board refused the post (%v) but the node changed %v and the board holds %d message(s)", desc, clip(err1.Error(), 100), d, boardLen())
 						return
 					}
-					if err2 := nd.SubmitResult(rec.ResultFile); err2 != nil {
+					if approval {
+						// twice unreachable before the board is back
+						nd.View.FailSends = 1
+						if err := submit(); err == nil {
+							v = violf("send-failure-swallowed", "%s: the board refused the post a second time, yet the approval was reported as successful", desc)
+							return
+						}
+					}
+					if err2 := submit(); err2 != nil {
 						v = violf("retry-refused", "%s: after a failed post the operator's second attempt is refused: %v", desc, err2)
 						return
 					}
 					posted := boardLen()
 					ids, _, _ := pendingIDs(nd)
-					err3 := nd.SubmitResult(rec.ResultFile)
+					err3 := submit()
+					want := 1
+					if !approval {
+						var g types.Operation
+						_ = json.Unmarshal(rec.ResultFile, &g)
+						want = len(g.ResultMsgs)
+					}
+					if posted != want {
+						v = violf("retry-not-exactly-once", "%s: after failed posts the successful attempt put %d message(s) on the board, the result holds %d", desc, posted, want)
+						return
+					}
 					if posted == 0 || containsStr(ids, rec.OpID) || err3 == nil || boardLen() != posted {
 						v = violf("retry-not-exactly-once", "%s: after the successful second attempt: %d message(s) posted, still pending %v, a third attempt: %v, board now %d", desc, posted, containsStr(ids, rec.OpID), err3, boardLen())
 					}
